@@ -11,6 +11,10 @@ type SchemaOpts struct {
 	Root     interface{}
 	BasePath string
 	_        struct{}
+
+	// visited holds the $refs already being resolved up the analysis stack,
+	// so that schemas which are arrays or maps of themselves do not recurse forever.
+	visited map[string]struct{}
 }
 
 // Schema analysis, will classify the schema according to known
@@ -24,6 +28,7 @@ func Schema(opts SchemaOpts) (*AnalyzedSchema, error) {
 		schema:   opts.Schema,
 		root:     opts.Root,
 		basePath: opts.BasePath,
+		visited:  opts.visited,
 	}
 
 	a.initializeFlags()
@@ -54,6 +59,7 @@ type AnalyzedSchema struct {
 	schema   *spec.Schema
 	root     interface{}
 	basePath string
+	visited  map[string]struct{}
 
 	hasProps           bool
 	hasAllOf           bool
@@ -102,6 +108,19 @@ func (a *AnalyzedSchema) inherits(other *AnalyzedSchema) {
 
 func (a *AnalyzedSchema) inferFromRef() error {
 	if a.hasRef {
+		ref := a.schema.Ref.String()
+		if _, cyclic := a.visited[ref]; cyclic {
+			// this $ref leads back to a schema which is already being analyzed:
+			// nothing more can be inferred from it (a cyclic container is not a simple schema)
+			return nil
+		}
+
+		visited := make(map[string]struct{}, len(a.visited)+1)
+		for k := range a.visited {
+			visited[k] = struct{}{}
+		}
+		visited[ref] = struct{}{}
+
 		sch := new(spec.Schema)
 		sch.Ref = a.schema.Ref
 		err := spec.ExpandSchema(sch, a.root, nil)
@@ -112,6 +131,7 @@ func (a *AnalyzedSchema) inferFromRef() error {
 			Schema:   sch,
 			Root:     a.root,
 			BasePath: a.basePath,
+			visited:  visited,
 		})
 		if err != nil {
 			// NOTE(fredbi): currently the only cause for errors is
@@ -160,6 +180,7 @@ func (a *AnalyzedSchema) inferMap() error {
 			Schema:   a.schema.AdditionalProperties.Schema,
 			Root:     a.root,
 			BasePath: a.basePath,
+			visited:  a.visited,
 		})
 		if err != nil {
 			return err
@@ -187,6 +208,7 @@ func (a *AnalyzedSchema) inferArray() error {
 				Schema:   a.schema.Items.Schema,
 				Root:     a.root,
 				BasePath: a.basePath,
+				visited:  a.visited,
 			})
 			if err != nil {
 				return err
